@@ -175,3 +175,18 @@ Proof. vm_compute. split; reflexivity. Qed.
 Example ex_rdv :
   r_slot (rrun rsys_init [RStart 7; RPoll 0; RPick; RTimeout 0; RDeposit 7 true]) = RvIdle.
 Proof. vm_compute. reflexivity. Qed.
+
+(* a whole responder-side handshake needs TWO slots: with a table of 3, two established sessions that
+   carry an exchange and one reclaimable session, the first message is answered Busy (and the idle
+   session evicted), the retry is taken, and the handler's reserve fails; nothing is leaked *)
+Example ex_one_reclaimable_slot_is_not_enough :
+  let pre := [NRx HCase 1; NAccept 0 VGood 2; NMsg 0 VGood 3; NAck 0 4;
+              NRx HCase 5; NAccept 1 VGood 6; NMsg 1 VGood 7; NAck 1 8;
+              NAppOpen 1 9; NAppOpen 4 10] in
+  map s_mode (t_sess (tb (core (nrun 3 5 node_init pre)))) = [MPlain; MCase; MCase] /\
+  snd (nstep 3 5 (nrun 3 5 node_init pre) (NRx HCase 11)) = RErr E_BUSY /\
+  snd (nstep 3 5 (nrun 3 5 node_init (pre ++ [NRx HCase 11])) (NRx HCase 12)) = RId 2 /\
+  snd (nstep 3 5 (nrun 3 5 node_init (pre ++ [NRx HCase 11; NRx HCase 12])) (NAccept 2 VGood 13)) = RErr E_NOSPACE /\
+  let n := nrun 3 5 node_init (pre ++ [NRx HCase 11; NRx HCase 12; NAccept 2 VGood 13]) in
+  atts n = [] /\ n_reserved (tb (core n)) = 0.
+Proof. vm_compute. repeat split; reflexivity. Qed.
